@@ -233,5 +233,9 @@ End Mech.
 
 (* a whole program on the implementation model: main runs in its own scope, function name "" *)
 Definition mech_run (blk : bool) (fuel : nat) (p : program) : list oitem * outcome :=
-  let '(c, s) := exec_list (mexec blk (pfuncs p) fuel) (pmain p) (init_state p) in
-  (rev (sout s), match c with Fail e => Failed e | _ => Finished end).
+  match init_state p with
+  | None => ([], Failed ERange)
+  | Some s0 =>
+      let '(c, s) := exec_list (mexec blk (pfuncs p) fuel) (pmain p) s0 in
+      (rev (sout s), match c with Fail e => Failed e | _ => Finished end)
+  end.
